@@ -23,6 +23,7 @@ XA(fn, t) == <<"extap", fn, t>>
 U1 == EE("User", "u1")  U2 == EE("User", "u2")  U3 == EE("User", "u3")
 G1 == EE("Group", "g1")  G2 == EE("Group", "g2")
 Red == EE("Color", "red")  Green == EE("Color", "green")
+Tm == EE("NS::Team", "t 1")  Un == EE("NS::Sub::Unit", "u::x")
 
 Ip1 == XS("ip", <<49,50,55,46,48,46,48,46,49>>)        Ip2 == XS("ip", <<49,48,46,48,46,48,46,48,47,56>>)       Ip3 == XS("ip", <<58,58,49>>)    Ip4 == XS("ip", <<102,102,101,101,58,58,49,49,47,49,54>>)
 D1 == XS("decimal", <<49,46,53>>)          D2 == XS("decimal", <<45,48,46,48,48,48,49>>)      D3 == XS("decimal", <<57,50,50,51,51,55,50,48,51,54,56,53,52,55,55,46,53,56,48,55>>)
@@ -40,6 +41,7 @@ AttrPool ==
   \cup {<<"b", BB(FALSE)>>}
   \cup {<<"s", v>> : v \in StrPool}
   \cup {<<"mgr", v>> : v \in {U1, U2, U3}} \cup {<<"fav", v>> : v \in {Red, Green}}
+  \cup {<<"nsref", Tm>>} \cup {<<"nsrefs", v>> : v \in {ST({}), ST({Un, EE("NS::Sub::Unit", "")})}}
   \cup {<<"ip", v>> : v \in {Ip1, Ip2, Ip3, Ip4}} \cup {<<"dec", v>> : v \in {D1, D2, D3, D4, D5}}
   \cup {<<"dt", v>> : v \in {T1, T2, T3, T4, T5}} \cup {<<"dur", v>> : v \in {R1, R2, R3, R4}}
   \cup {<<"nums", v>> : v \in {ST({}), ST({LL(OfInt(1)), LL(OfInt(2))}), ST({LL(I64Min), LL(I64Max)})}}
@@ -64,7 +66,11 @@ RichEntities ==
     TEnt_(U2, [n |-> LL(I64Min), fav |-> Red, dt |-> T4, ips |-> ST({Ip1, Ip4}), s |-> SS(<<128512, 34>>)], [k2 |-> D4], {}),
     TEnt_(G1, [owner |-> U1], [k1 |-> ST({U1, U2})], {G2}),
     TEnt_(G1, NoF, [k1 |-> ST({}), k2 |-> ST({U3})], {}),
-    TEnt_(G2, NoF, NoF, {}) }
+    TEnt_(G2, NoF, NoF, {}),
+    \* namespaced entity types: as uid, attribute value, tag value and parent
+    TEnt_(Tm, [lead |-> U1, unit |-> Un], NoF, {G1}),
+    TEnt_(Un, NoF, [k1 |-> Tm], {Tm}),
+    TEnt_(U2, [n |-> LL(OfInt(3)), nsref |-> Tm, nsrefs |-> ST({Un})], NoF, {G1}) }
 RichOk == {e \in RichEntities : e.uid \notin e.parents}
 EnumAndActionEntities ==
   { TEnt_(Red, NoF, NoF, {}), TEnt_(ActUid("view"), NoF, NoF, {ActUid("all")}), TEnt_(ActUid("all"), NoF, NoF, {}) }
@@ -78,7 +84,8 @@ StU2 == { {}, {TEnt_(U2, [n |-> LL(OfInt(2)), ip |-> Ip3, dur |-> R4], [k1 |-> D
 StGroups == { {TEnt_(G1, NoF, NoF, {})}, {TEnt_(G1, NoF, NoF, {G2})},
               {TEnt_(G1, [owner |-> U1], [k1 |-> ST({U1})], {G2}), TEnt_(G2, NoF, NoF, {})},
               {TEnt_(G1, NoF, NoF, {G2}), TEnt_(G2, NoF, NoF, {}), TEnt_(Red, NoF, NoF, {})},
-              {TEnt_(G1, NoF, NoF, {G2}), TEnt_(G2, NoF, NoF, {}), TEnt_(ActUid("view"), NoF, NoF, {ActUid("all")})} }
+              {TEnt_(G1, NoF, NoF, {G2}), TEnt_(G2, NoF, NoF, {}), TEnt_(ActUid("view"), NoF, NoF, {ActUid("all")})},
+              {TEnt_(G1, NoF, NoF, {G2}), TEnt_(G2, NoF, NoF, {}), TEnt_(Tm, [unit |-> Un], NoF, {G1}), TEnt_(Un, NoF, [k1 |-> Tm], {Tm})} }
 Stores == {{u1} \cup u2 \cup gs : u1 \in StU1, u2 \in StU2, gs \in StGroups}
 
 \* ---- contexts for action view
